@@ -84,7 +84,8 @@ func (gen *generator) irBoolConst(t types.Type, old *ast.BoolConst) (*constant.I
 	if !typ.Equal(types.I1) {
 		return nil, errors.Errorf("boolean type mismatch; expected %q, got %q", types.I1, typ)
 	}
-	return constant.NewBool(boolLit(old.BoolLit())), nil
+	// Keep the given type; e.g. a named i1 type (`%bool = type i1`).
+	return constant.NewIntFromString(typ, old.BoolLit().Text())
 }
 
 // --- [ Integer constants ] ---------------------------------------------------
